@@ -377,6 +377,9 @@ func runC01(c *core.Ctx) {
 	if c.InChild() {
 		return
 	}
+	// the library parts above resolve independent books in up to 16 goroutines at once, under the race detector:
+	// resolving one book shares nothing with resolving another
+	raceReports(c, "the resolver (independent books resolved concurrently)")
 	pool := newPool(c, c.Procs)
 	if pool == nil {
 		return
